@@ -1009,7 +1009,8 @@ func scCliStdioFirst(ch *child) {
 		c.Close()
 	}
 	// Close while the first request is in flight
-	for round := 0; round < 3*ch.scale; round++ {
+	delays := []time.Duration{200, 500, 1000, 1500, 2000, 3000, 4500, 7000, 15000}
+	for round := 0; round < len(delays); round++ {
 		c := newStdioClient()
 		var wg sync.WaitGroup
 		wg.Add(2)
@@ -1023,7 +1024,9 @@ func scCliStdioFirst(ch *child) {
 		}()
 		go func() {
 			defer wg.Done()
-			time.Sleep(time.Duration(round%3) * time.Millisecond)
+			// a Close that falls between the first request's look at the closed flag and the end of the process
+			// start (a few milliseconds) reads the pipe fields the start is about to write
+			time.Sleep(delays[round] * time.Microsecond)
 			c.Close()
 		}()
 		wg.Wait()
